@@ -53,8 +53,13 @@ package repository
 // Reading objects does not change the repository.
 //@ func RepoData.ReadCommit
 //@   modifies nothing
+// treeLen/treeName: the entries of the git tree behind a hash (the object store is content addressed and
+// immutable, so these are functions of the hash).
+//@ spec func treeLen(h Hash) int
+//@ spec func treeName(h Hash, k int) string
 //@ func RepoData.ReadTree
 //@   modifies nothing
+//@   ensures [entries] result1 == nil ==> len(result) == treeLen(hash) && (forall k int :: { result[k] } 0 <= k && k < len(result) ==> result[k].Name == treeName(hash, k))
 //@ func RepoData.ReadData
 //@   modifies nothing
 //@ func RepoData.ListCommits
